@@ -8,7 +8,7 @@ parameters in the same order.  The code violates the property for a protocol tha
 steady-state run (same root cause as F-C04-2): `C14_refines_spec_full_fails` is the witness, the
 history theorem is `_partial` under `okHistP`.
 -/
-import MxlVerif.Lemmas.C14Refine
+import MxlVerif.Lemmas.C14Index
 namespace Mxl.C14
 open Mxl.C04
 
@@ -109,6 +109,37 @@ theorem C14_tc_index (pts : List Rat) (lo hi : Rat) (hlo : lo < hi) :
     (stepPoints pts lo hi).getLast? = some hi :=
   ⟨fun t => mem_stepPoints pts lo hi t hlo, stepPoints_sorted pts lo hi, stepPoints_getLast pts lo hi hlo⟩
 
+/-- The index of a whole time-course protocol call (specification machine, live state on a
+    strictly increasing axis, positive durations, the call accepted): afterwards the axis is the
+    axis before (the start time itself if there was no result) followed by the steps' points; a time
+    is among those iff it is a requested point in `(t_start, T_end]` or a step boundary; every such
+    time is on the axis exactly once, the axis is strictly increasing, and the clock is at `T_end`.
+    (`C14_refines_spec_partial` carries this over to the Simulator.) -/
+theorem C14_tc_index_whole_call {σ} (S : Sys σ) (a : Spec σ) (steps : List PStep) (pts : List Rat)
+    (hne : steps ≠ []) (hf : a.failed = false) (hax : Spec.Axis a)
+    (hpos : steps.all (fun s => decide (0 < s.1)) = true)
+    (hacc : (Spec.runStop S a (expandProtocolTC pts a.now steps)).2 = none) :
+    let a' := (Spec.runStop S a (expandProtocolTC pts a.now steps)).1
+    times a'.segs = axisBase a ++ allStepPoints pts a.now steps ∧
+    (∀ t, t ∈ allStepPoints pts a.now steps ↔
+      (t ∈ pts ∧ a.now < t ∧ t ≤ totalEnd a.now steps) ∨ t ∈ boundaries a.now steps) ∧
+    (times a'.segs).Pairwise (· < ·) ∧
+    (∀ t ∈ allStepPoints pts a.now steps, (times a'.segs).count t = 1) ∧
+    a'.now = totalEnd a.now steps := by
+  intro a'
+  obtain ⟨ht, hnow⟩ := Spec.protocolTC_times S pts steps a hf hpos hacc
+  have hemp : steps.isEmpty = false := by cases steps <;> simp at hne ⊢
+  simp only [hemp, Bool.false_eq_true, if_false] at ht
+  have hsorted : (times a'.segs).Pairwise (· < ·) :=
+    (Spec.runStop_axis S _ a hax
+      (simLike_steadyPos _ (expandProtocolTC_simLike pts a.now steps))).sorted
+  refine ⟨ht, fun t => mem_allStepPoints pts a.now steps hpos t, hsorted, ?_, hnow⟩
+  intro t hmem
+  apply count_eq_one_of_pairwise _ hsorted
+  show t ∈ times a'.segs
+  rw [ht]
+  exact List.mem_append_right _ hmem
+
 /-! ## histories with protocols -/
 
 /-- every history of simulate / time-course / steady-state / update / clear / protocol calls with
@@ -123,6 +154,14 @@ theorem C14_refines_spec_partial {σ} (S : Sys σ) (p : Pars) (y0 : σ) (ops : L
     (runP S (Sim.init p y0) ops).1.pars = (Spec.runP S (Spec.init p y0) ops).1.pars := by
   obtain ⟨h1, h', r⟩ := runP_refines S ops HSt.start _ _ (Rel.init p y0) hok
   exact ⟨h1, r.segs, r.pars⟩
+
+/-- hence (C04's axis theorem for the spec machine, whose protocol calls are C04 calls) the
+    accumulated result of every such history has a strictly increasing time axis -/
+theorem C14_axis_increasing_partial {σ} (S : Sys σ) (p : Pars) (y0 : σ) (ops : List OpP)
+    (hok : okHistP HSt.start ops = true) :
+    (times (runP S (Sim.init p y0) ops).1.segs).Pairwise (· < ·) := by
+  rw [(C14_refines_spec_partial S p y0 ops hok).2.1]
+  exact (Spec.runP_axis S ops _ (Spec.Axis.init p y0) (okHistP_steadyPos ops _ hok)).sorted
 
 /-- the unrestricted statement is false of the code: a protocol after a steady-state run restarts
     from time 0 (axis `[200, 201/2, 201, 202, 203]`, not increasing) -/
